@@ -501,6 +501,8 @@ func cmdCheck(args []string) int {
 		cfg.Timeout = 60
 		cfg.AllAgree = true
 	}
+	// a must-fail run only has to show one failing obligation: no long retry of what nobody answered
+	cfg.NoRetry = *mutant != "" && os.Getenv("GOVC_MUTANT_RETRY") == ""
 	tSolve := time.Now()
 	w.SolveAll(obs, cfg, 16)
 	solveSecs := time.Since(tSolve).Seconds()
